@@ -329,7 +329,8 @@ func (s emptyElementPseudoClassSelector) Match(n *html.Node) bool {
 		case html.ElementNode:
 			return false
 		case html.TextNode:
-			if strings.TrimSpace(nodeText(c)) == "" {
+			// only document white space characters are ignored (not U+00A0, U+0085, U+000B...)
+			if strings.Trim(nodeText(c), " \t\n\f\r") == "" {
 				continue
 			} else {
 				return false
